@@ -10,10 +10,58 @@ pub assume_specification<T> [bool::then_some] (b: bool, t: T) -> (r: Option<T>)
     ensures r == (if b { Some(t) } else { None::<T> });
 // ---- dependency models (trusted)
 pub mod coset { use vstd::prelude::*; #[verifier::external_body] pub struct CoseKey { _p: u8 }
-    impl Clone for CoseKey { #[verifier::external_body] fn clone(&self) -> (r: Self) ensures r == *self { unimplemented!() } } }
+    impl Clone for CoseKey { #[verifier::external_body] fn clone(&self) -> (r: Self) ensures r == *self { unimplemented!() } }
+    // decode side: the error type, the result alias and AsCborValue::from_cbor_value (outcome unconstrained)
+    pub struct EndOfFile;
+    pub enum CoseError { DecodeFailed(crate::ciborium::de::Error<EndOfFile>), OutOfRangeIntegerValue, Other }
+    pub type Result<T, E = CoseError> = core::result::Result<T, E>;
+    impl CoseKey { #[verifier::external_body] pub fn from_cbor_value(v: crate::Value) -> Result<CoseKey> { unimplemented!() } }
+}
 pub use coset::CoseKey;
 #[verifier::external_body] pub struct Value { _p: u8 }
 impl Value { #[verifier::external_body] pub fn serialized<T>(t: &T) -> Result<Value, ()> { unimplemented!() } }
+// ---- std::io::{Cursor, Read} over a byte slice (trusted model): `rem()` is the unread suffix; read_exact either
+//      fills the whole buffer from the front of it or fails because fewer bytes remain.
+pub mod io_model { use vstd::prelude::*;
+    pub struct IoError;
+    pub trait Read {
+        spec fn rem(&self) -> Seq<u8>;
+        fn read_exact(&mut self, buf: &mut [u8]) -> (r: Result<(), IoError>)
+            ensures
+                final(buf)@.len() == old(buf)@.len(),
+                r is Ok ==> old(self).rem().len() >= old(buf)@.len()
+                    && final(buf)@ == old(self).rem().subrange(0, old(buf)@.len() as int)
+                    && final(self).rem() == old(self).rem().subrange(old(buf)@.len() as int, old(self).rem().len() as int),
+                r is Err ==> old(self).rem().len() < old(buf)@.len();
+    }
+    pub struct Cursor<'a> { pub data: &'a [u8], pub pos: usize }
+    impl<'a> Cursor<'a> {
+        pub fn new(v: &'a [u8]) -> (r: Cursor<'a>) ensures r.rem() == v@ { Cursor { data: v, pos: 0 } }
+    }
+    impl<'a> Read for Cursor<'a> {
+        open spec fn rem(&self) -> Seq<u8> { if self.pos <= self.data@.len() { self.data@.subrange(self.pos as int, self.data@.len() as int) } else { Seq::empty() } }
+        #[verifier::external_body] fn read_exact(&mut self, buf: &mut [u8]) -> (r: Result<(), IoError>) { unimplemented!() }
+    }
+}
+use io_model::{Cursor, Read};
+// ---- ciborium::de::from_reader (trusted model): a successful decode consumes at least one byte of the reader and
+//      leaves a suffix of what was there; the decoded value itself is unconstrained.
+pub mod ciborium { pub mod de { use vstd::prelude::*; use crate::io_model::Read;
+    pub enum Error<T> { Io(T), Syntax(usize) }
+    #[verifier::external_body]
+    pub fn from_reader<T, R: Read>(reader: &mut R) -> (r: Result<T, Error<crate::io_model::IoError>>)
+        ensures r is Ok ==> old(reader).rem().len() >= 1 && final(reader).rem().len() < old(reader).rem().len()
+                    && final(reader).rem() == old(reader).rem().subrange(old(reader).rem().len() - final(reader).rem().len(), old(reader).rem().len() as int)
+    { unimplemented!() }
+} }
+pub assume_specification<T, E> [Option::<Result<T, E>>::transpose] (o: Option<Result<T, E>>) -> (r: Result<Option<T>, E>)
+    ensures r == (match o { Some(Ok(x)) => Ok::<Option<T>, E>(Some(x)), Some(Err(e)) => Err::<Option<T>, E>(e), None => Ok::<Option<T>, E>(None) });
+pub trait VxIntoArr { spec fn vx_view(self) -> Seq<u8>; fn vx_into_arr<const N: usize>(self) -> (r: [u8; N]) requires self.vx_view().len() == N ensures r@ == self.vx_view(); }
+impl<'a> VxIntoArr for &'a [u8] {
+    open spec fn vx_view(self) -> Seq<u8> { self@ }
+    #[verifier::external_body] fn vx_into_arr<const N: usize>(self) -> (r: [u8; N]) { self.try_into().unwrap() }
+}
+//@ include ../_common/bytes_prelude.rs
 #[derive(Clone, Copy)] pub struct Aaguid(pub [u8; 16]);
 pub uninterp spec fn spec_sha256(data: Seq<u8>) -> Seq<u8>;
 #[verifier::external_body] pub fn sha256(data: &[u8]) -> (r: [u8; 32]) ensures r@ == spec_sha256(data@) { unimplemented!() }
@@ -71,5 +119,19 @@ impl AttestedCredentialData { pub open spec fn v_id(&self) -> Vec<u8> { self.cre
 //@ extract ad impl AuthenticatorData#0
 //@   rule R5
 //@ extract ad impl AttestedCredentialData#0
+// ---- decode side
+//@ extract ad fn io_error
+//@ extract ad impl AuthenticatorData#1
+//@   only from_slice
+//@   rule R18
+//@   rule R4d
+//@ extract ad impl AttestedCredentialData#1
+//@   only from_reader
+// the reserved bits of the WebAuthn flags byte are 1 and 5 (0x22); every other bit is a named flag of the real `bitflags!`
+pub proof fn lemma_all_bits() ensures Flags::VX_ALL.bits == 0xddu8, forall|b: u8| (b & !0xddu8 == 0) <==> (b & 0x22u8 == 0)
+{
+    assert(((1u8 << 0u8) | (1u8 << 2u8) | (1u8 << 3u8) | (1u8 << 4u8) | (1u8 << 6u8) | (1u8 << 7u8)) == 0xddu8) by(bit_vector);
+    assert(forall|b: u8| (b & !0xddu8 == 0) <==> (b & 0x22u8 == 0)) by(bit_vector);
+}
 } // verus!
 fn main() {}
